@@ -277,8 +277,11 @@
     fn c31_core_duration_never_exceeds() {
         let d = any_duration_normalized();
         let c = core::time::Duration::from(d);
-        let bound: u128 = if d.sec < 0 { 0 } else { (d.sec as u128) * 1_000_000_000 + d.nanosec as u128 };
-        assert!(c.as_nanos() <= bound, "C31: sleep time <= max(0, duration)");
-        if d.sec >= 0 { assert!(c.as_nanos() == bound); }
+        // multiplication-free: compare whole seconds and sub-second nanoseconds
+        if d.sec < 0 {
+            assert!(c.as_secs() == 0 && c.subsec_nanos() == 0, "C31: sleep time <= max(0, duration): an overdue (negative) duration sleeps 0");
+        } else {
+            assert!(c.as_secs() == d.sec as u64 && c.subsec_nanos() == d.nanosec, "C31: sleep time == duration for non-negative durations");
+        }
         kani::cover!(d.sec < 0);
     }
